@@ -27,6 +27,30 @@ def factors(e):
     return sorted(num), sorted(den)
 
 
+def signed_factors(e):
+    """Product/quotient -> (sign, numerator factors, denominator factors); unary minus anywhere is pulled out."""
+    sign = [1]
+    num, den = [], []
+
+    def rec(x, inv):
+        if isinstance(x, ast.BinOp) and isinstance(x.op, ast.Mult):
+            rec(x.left, inv)
+            rec(x.right, inv)
+        elif isinstance(x, ast.BinOp) and isinstance(x.op, ast.Div):
+            rec(x.left, inv)
+            rec(x.right, not inv)
+        elif isinstance(x, ast.UnaryOp) and isinstance(x.op, ast.USub):
+            sign[0] = -sign[0]
+            rec(x.operand, inv)
+        elif isinstance(x, ast.UnaryOp) and isinstance(x.op, ast.UAdd):
+            rec(x.operand, inv)
+        else:
+            (den if inv else num).append(ast.unparse(x))
+
+    rec(e, False)
+    return sign[0], sorted(num), sorted(den)
+
+
 def terms(e):
     """Flatten a sum into [(sign, node)]."""
     out = []
